@@ -303,6 +303,7 @@ class Engine:
         self.inlined = set()
         self.const_cache = {}
         self.opaque_eq_types = {"Method", "StatusCode", "Version"}
+        self.auto_inline = None             # callable(engine, callee text, caller path) -> body path | None
 
     # ---------------- path enumeration ----------------
     def explore(self, path, args=None, setup=None):
@@ -880,6 +881,15 @@ class Engine:
                 r = self.run_body(self.idx.body(path), args, depth + 1)
                 self.events.append(Event("leave", path, [], r, site))
                 return r
+        # 3b. automatic inlining of repo-local helpers (robustness against "extract function" refactorings)
+        if self.auto_inline is not None and depth < self.max_depth:
+            path = self.auto_inline(self, callee, fr.body.path)
+            if path is not None:
+                self.inlined.add(path)
+                self.events.append(Event("enter", path, args, None, site))
+                r = self.run_body(self.idx.body(path), args, depth + 1)
+                self.events.append(Event("leave", path, [], r, site))
+                return r
         # 4. uninterpreted
         self.uninterpreted.add(callee)
         r = self.fresh(("ret", callee), ret_ty)
@@ -912,8 +922,9 @@ class Engine:
                 if isinstance(fut, Ref):
                     fut = self.deref(fut)
             if isinstance(fut, Agg) and fut.kind == "coroutine" and fut.body_path:
-                if any(re.search(rx, fut.body_path) for rx, _t in self.inline if isinstance(_t, str) and _t == fut.body_path) or \
-                        fut.body_path in [t for _rx, t in self.inline if isinstance(t, str)]:
+                if fut.body_path in [t for _rx, t in self.inline if isinstance(t, str)] or \
+                        (self.auto_inline is not None and fut.body_path.endswith("::{closure#0}") and
+                         fut.body_path[:-len("::{closure#0}")] in self.inlined):
                     self.inlined.add(fut.body_path)
                     self.events.append(Event("enter", fut.body_path, [fut], None, site))
                     r = self.run_body(self.idx.body(fut.body_path), [fut, Sym(("resume",))], depth + 1)
